@@ -161,6 +161,21 @@ PROPS = {
         "real_vs_stub": REAL + "; goroutine choice at every lock/IO decision point is the simulator's",
         "assumptions": ["VGetConnections repairs dead links as a side effect (documented), it is called last and the run is settled again afterwards"],
     },
+    "C06": {
+        "level": "exploration", "quick": 1500, "thorough": 90000, "batch": 1, "single_timeout": 150,
+        "rule": ("two tiers chosen by seed. Single task (2/3): C08-style histories (add, batch, delete, re-add, metadata merge, link/unlink, "
+                 "vacuum, refine, compress, snapshot, compaction, restart; float32/float16/int8) with searches at any position: vector queries with "
+                 "k in {1..50}, efSearch, generated filter ASTs, graph scopes (root, relations, direction, depth); every returned id must be live in the "
+                 "model, satisfy the reference filter, lie in the reference reachable set, appear once, <= k results, scores non-increasing and each equal "
+                 "to 1/(1+d) recomputed from the VGet vector (1e-4 float32, .02 float16, .12 int8); in the exact regime no eligible vector is missing. "
+                 "Concurrent (1/3): a writer/deleter/re-adder task, a maintenance task (vacuum, refine) and 1-2 searcher tasks under the cooperative "
+                 "scheduler (vacuum/refine phases are separated by locks, so searches land between them); a returned id must have been live at some "
+                 "instant between the search's invoke and return sequence numbers, no duplicates, <= k, filter respected. Non-trivial: some search "
+                 "returned results; distinct = program hash (+ grant-sequence hash)."),
+        "real_vs_stub": REAL,
+        "expect_probes": ["concurrent_tier"],
+        "assumptions": ["scores of memory-enabled (decay) indexes are judged by C15, not here", "exact regime = <=2M nodes ever inserted and efConstruction >= 2M"],
+    },
 }
 
 
@@ -170,6 +185,12 @@ NOT_APPLICABLE["C20"] = ("pure functions of their input (text analysis, chunking
                          "no schedule, fault or interleaving for a simulator to decide; property-based testing territory, see DESIGN.md section 7")
 
 MANIFEST_TEXT = {
+    "C06": {
+        "text": "Seeded exploration of the universal negatives of search (nothing deleted, out of filter, out of scope, duplicated or mis-scored is ever returned) over model-tracked histories, plus a scheduled tier in which searches interleave with writers, deleters and the phases of vacuum/refine.",
+        "design_ref": "DESIGN.md section 6 C06",
+        "note": "Scores are recomputed from VGet data with a per-precision tolerance; completeness is only demanded in the exact regime. Concurrent oracle is interval-based (live at some instant of the call).",
+        "technique": "deterministic simulation: seeded histories with reference filter/scope/liveness oracles; cooperative scheduler tier with interval-liveness oracle",
+    },
     "C12": {
         "text": "Seeded search over schedules and crash points of the delete cascade: the cascade goroutine is a scheduled task, client links interleave with its unlinks, Close cancels it at arbitrary steps and crash images are taken at file-system events; all graph views are checked for edges incident to deleted nodes live (settled), after restart and after crash recovery.",
         "design_ref": "DESIGN.md section 6 C12",
